@@ -484,17 +484,20 @@ func run(c Case) ([]vk.Violation, vk.Info) {
 	overflow, merge, multiView := false, false, false
 	for _, m := range models {
 		for i := range c.Insts {
-			n := 0
+			n, live := 0, 0
 			for _, v := range c.Views {
 				if v.matches(i, c.Insts[i]) {
 					n++
+					if v.Agg != vaDrop {
+						live++
+					}
 				}
 			}
 			if n >= 2 {
 				multiView = true
 			}
 			info.ClassIf(len(m.feeds[i]) >= 2, "instrument_feeds_>=2_streams")
-			info.ClassIf(n >= 2 && len(m.feeds[i]) == 1, "matching_views_give_identical_stream")
+			info.ClassIf(live > len(m.feeds[i]) && len(m.feeds[i]) > 0, "matching_views_give_identical_stream(counted once)")
 			info.ClassIf(n >= 1 && len(m.feeds[i]) == 0, "instrument_fully_dropped")
 		}
 		for _, s := range m.streams {
